@@ -554,7 +554,8 @@ FailHere == /\ InjectFail /\ Busy /\ CanFail(Dirty) /\ Abort("injected")
 Restart(n) == /\ ~Busy /\ stim.st = "none" /\ nrestart < MaxRestart /\ nreq < MaxReq
               /\ nrestart' = nrestart + 1 /\ nreq' = nreq + 1
               /\ last' = [res |-> "ok", why |-> "restart", ret |-> <<>>, n |-> n, amb |-> FALSE]
-              /\ UNCHANGED <<ctr, meta, engine, onto, everUsed, fresh, gone, ixn, keyOf, stim, rq>>
+              /\ ixn' = IF n = Boot THEN EmptyF ELSE ixn   \* indexes are rebuilt from the table
+              /\ UNCHANGED <<ctr, meta, engine, onto, everUsed, fresh, gone, keyOf, stim, rq>>
 
 Step == \/ CValidate \/ CExpand \/ CSplit \/ CRoute \/ CFreeOverwrite \/ CFreeAssign \/ CFreeMeta
         \/ CFreeOnto \/ CLocalOverwrite \/ CLocalAssign \/ CEngineCreate \/ CLocalMeta \/ COnto
